@@ -95,6 +95,9 @@ func storeAlphabet(o alphabetOpts) []storeOp {
 	}
 	if o.held {
 		ops = append(ops, opHold(0), opMergeHeld(1))
+		if o.proto {
+			ops = append(ops, opProtoStream(1, 0))
+		}
 	}
 	if o.reads {
 		ops = append(ops, opReadIter(0), opReadEncode(0), opReadMisc(0), opReadStop(0))
@@ -116,6 +119,9 @@ func idxFor(k Kind) []int {
 		return []int{0, 31, 32, -1, -33, 128, -129}
 	default:
 		n := k.N
+		if n > 64 {
+			return []int{0, 1, n - 1, n, n + 1, -1, -n, 3 * n, 31, 32, -32, -33}
+		}
 		return []int{0, 1, n - 1, n, n + 1, -1, -n, 3 * n}
 	}
 }
@@ -175,6 +181,19 @@ func seedsFor(k Kind, tier string) []mc.Seed[*StoreWorld] {
 			storeSeed("collapsed-cleared", opAdd(0, 0), opAdd(0, 3*n), opClear(0)),
 			storeSeed("partner-wider-than-N", opAddRun(1, 0, 2, 2*n+5)),
 		)
+		if n >= 4 {
+			// a partner that overhangs a narrow receiver on both sides by less than the
+			// receiver's window (the receiver collapses without folding anything of its own)
+			if k.K == 'L' {
+				out = append(out, storeSeed("partner-overhangs-both-sides", opAdd(1, -1), opAdd(1, n/2)))
+			} else {
+				out = append(out, storeSeed("partner-overhangs-both-sides", opAdd(1, 1), opAdd(1, -(n/2))))
+			}
+		}
+		if n > 64 {
+			// the 64-cell array the store starts with is full although the bin limit is not reached
+			out = append(out, storeSeed("first-array-full", opAddRun(0, -32, 64, 1)))
+		}
 	}
 	return out
 }
